@@ -372,6 +372,18 @@ class Run:
                 self.kani_replays[o.name] = path
                 self.violations.append((o, path, suffix))
             elif o.engine == "verus":
+                # A failed Verus proof is not by itself a counterexample. If the same statement is discharged on this very
+                # tree by *complete* Kani twins (loop-free, full input domain), the property holds for that function and the
+                # Verus failure is a lost proof (e.g. a construct without a vstd specification): undecided, not a violation.
+                twins = [t for t in (o.twin or [])]
+                by_name = {x.name: x for x in self.obs}
+                if twins and all(t in by_name and by_name[t].engine == "kani" and by_name[t].kind == "complete"
+                                 and by_name[t].status == "discharged" for t in twins):
+                    o.status = "undecided"
+                    o.detail = "Verus proof lost, but the complete Kani twin(s) %s discharge the same statement on this tree: %s" % (
+                        ", ".join(twins), (o.detail or "")[:600])
+                    self.undecided.append("%s: %s" % (o.name, o.detail[:300]))
+                    continue
                 twin_paths = []
                 for t in (o.twin or []):
                     if t in kani_failed:
